@@ -146,6 +146,9 @@ def run_rfm_level(p):
                   early_stop_rfm=False)
         Xq = data['Xt']
         ref = model.predict(Xq)
+        # float32 rounding of K @ alpha accumulated in another order when the rows are evaluated in other blocks
+        Kq = model.kernel(Xq, model.centers).double().abs()
+        allow = (64 * 2.0 ** -24 * (model.centers.shape[0] + 8) * (Kq @ model.weights.double().abs())).numpy() + 1e-7
     nq = Xq.shape[0]
     seen = 0
     for container in ('tensor', 'ndarray'):
@@ -166,7 +169,7 @@ def run_rfm_level(p):
             b = ref.detach().cpu().numpy()
             if a.shape != b.shape or a.dtype != b.dtype:
                 res['failures'].append({'signature': 'C20:output-format:rfm-predict', 'detail': f'{tag}: {describe(a)} vs {describe(b)} for a tensor in one block'})
-            elif not np.allclose(a, b, rtol=1e-5, atol=1e-6):
+            elif not (np.abs(a - b) <= allow).all():
                 res['failures'].append({'signature': 'C20:prediction-differs:rfm-predict', 'detail': f'{tag}: values differ from the one-block tensor call by {float(np.abs(a - b).max()):.3e}'})
             else:
                 seen += 1
